@@ -38,6 +38,27 @@ def random_keys(rng, kind, cap, depth, n):
     return lines
 
 
+def big_history(rng, kind, cap, depth):
+    """a history buffer of more than 64 KiB (cap * depth): more distinct lines than fit below 2^16 bytes are entered, then the
+    whole history is walked with Up and back with Down, and an old line is executed"""
+    lines = ["R %s %d %d" % (kind, cap, depth)]
+    nlines = min(depth + 3, 65536 // cap + 8)
+    for i in range(nlines):
+        for ch in ("c%d" % i):
+            lines.append("Key %d" % ord(ch))
+        lines.append("Key 13")
+    ups = min(depth, nlines) + 2
+    for _ in range(ups):
+        lines += ["Key 27", "Key 91", "Key 65"]
+    for _ in range(rng.randrange(0, 4)):
+        lines += ["Key 27", "Key 91", "Key 66"]
+    lines.append("Key 13")
+    for _ in range(3):
+        lines += ["Key 27", "Key 91", "Key 65"]
+    lines.append("Key 13")
+    return lines
+
+
 def random_sl(rng, kind, cap, n):
     lines = ["R %s %d" % (kind, cap)]
     for _ in range(n):
@@ -78,6 +99,10 @@ def check(ctx):
         rnd += random_keys(ctx.rng, ["c", "xx"][i % 2], ctx.rng.choice([2, 3, 4, 5, 8, 16]), ctx.rng.choice([1, 2, 3, 5]), 80)
         if i % 4 == 0:
             rnd += random_sl(ctx.rng, ["sl", "slxx"][(i // 4) % 2], ctx.rng.choice([2, 3, 4, 8]), 60)
+    # histories larger than 64 KiB (byte offsets that do not fit 16 bits) and lines longer than 255 characters
+    for i, (cap, depth) in enumerate([(1024, 80), (300, 250)] + ([(4096, 20), (70, 1000)] if ctx.thorough else [])):
+        rnd += big_history(ctx.rng, ["c", "xx"][i % 2], cap, depth)
+        rnd += big_history(ctx.rng, ["xx", "c"][i % 2], cap, depth)
     t1 = ctx.drive(drv, script, "term_cover")
     t2 = ctx.drive(drv, rnd, "term_random")
     bad = ctx.judge("LineEditTrace", [t1, t2])
